@@ -52,9 +52,38 @@ def kern (req : Json) : R Reply := do
             bad := bad ++ [Json.arr #[Json.str tag, Json.str s, Json.str g1, Json.str g2]]
   return { model, holds := bad.isEmpty, info := Json.arr bad.toArray }
 
+abbrev Applied := List (String × List ((String × String) × (Q × Q)))
+
+def asApplied (j : Json) : R Applied :=
+  asList (asPair asStr (asList (fun j => do
+    match ← asArr j with
+    | [g1, g2, adv, pla] => pure (((← asStr g1, ← asStr g2), (← asRat adv, ← asRat pla)) : (String × String) × (Q × Q))
+    | _ => throw "applied entry"))) j
+
+/-- the glyph pairs (per script tag) to which the two tables apply different adjustments (a pair absent from a table gets 0 0) -/
+def appliedDiff (a b : Applied) : List (String × String × String) :=
+  let tags := (a.map (·.1) ++ b.map (·.1)).eraseDups
+  tags.flatMap (fun t =>
+    let ea := (alookup t a).getD []
+    let eb := (alookup t b).getD []
+    let keys := (ea.map (·.1) ++ eb.map (·.1)).eraseDups
+    (keys.filter (fun k => (alookup k ea).getD (0, 0) != (alookup k eb).getD (0, 0))).map (fun k => (t, k.1, k.2)))
+
+/-- op "agree2": both shipped kern writers compiled the same single-direction font; holds = the applied tables are equal -/
+def agree2 (req : Json) : R Reply := do
+  let obs ← field req "obs"
+  let a1 ← asApplied (← field obs "applied1")
+  let a2 ← asApplied (← field obs "applied2")
+  let err ← asOpt asStr (← field obs "err")
+  let bad := appliedDiff a1 a2
+  let model := Json.mkObj [("entries", natJ (a1.map (·.2.length)).sum)]
+  return { model, holds := err.isNone && bad.isEmpty,
+           info := Json.arr (bad.map (fun (t, g1, g2) => Json.arr #[Json.str t, Json.str g1, Json.str g2])).toArray }
+
 def handle (op : String) (req : Json) : R Reply :=
   match op with
   | "kern" => kern req
+  | "agree2" => agree2 req
   | _ => throw s!"C05: unknown op {op}"
 
 end Ufo2ft.Drv.C05
